@@ -1,6 +1,6 @@
 use crate::{
     bytes::{Cursor, Reader},
-    constants::DOMAIN_NAME_MAX_POINTERS,
+    constants::{DOMAIN_NAME_MAX_LENGTH, DOMAIN_NAME_MAX_POINTERS},
     names::{self, DName},
     Error, Result,
 };
@@ -132,6 +132,12 @@ pub(crate) fn read_domain_name<N: DName>(c: &mut Cursor<'_>) -> Result<N> {
     );
 
     let _ = done; // make clippy happy
+
+    // RFC 1035 section 3.1: a domain name is at most 255 octets on the wire,
+    // which is the length of its text form (with the trailing dot) plus one.
+    if dn.len() >= DOMAIN_NAME_MAX_LENGTH {
+        return Err(Error::DomainNameTooLong(dn.len() + 1));
+    }
 
     if dn.is_empty() {
         dn.set_root();
